@@ -12,6 +12,8 @@
   dict/mapped_file.cc / .h
       -> Create() on an existing file: resize in place?  Allocate: memset?
          OpenReadOnly: guarded against a mapping failure?
+  lever/deployment_tasks.cc WorkspaceUpdate::Run
+      -> is var/last_build_time written once, after the schema loop
   config/config_data.cc ConfigData::SaveToFile, config/save_output_plugin.cc SaveOutputPlugin::ReviewLinkOutput
       -> written in place or to a temporary name followed by rename()
 
@@ -230,6 +232,21 @@ def save_mode():
     return "SaveUnknown", "SaveOutputPlugin: temporary %s without the save/rename shape" % tmp
 
 
+def stamp_last():
+    """WorkspaceUpdate::Run writes var/last_build_time exactly once, after the last schema update"""
+    dt = read("lever/deployment_tasks.cc")
+    b = body_of(dt, r"\bWorkspaceUpdate::Run\s*\(")
+    if b is None:
+        return False, "WorkspaceUpdate::Run not found"
+    sets = [m.start() for m in re.finditer(r'SetInt\s*\(\s*"var/last_build_time"', b)]
+    ups = [m.start() for m in re.finditer(r"\bbuild_schema\s*\(|\bSchemaUpdate\s*\(", b)]
+    loops = [m.start() for m in re.finditer(r"\bfor\s*\(", b)]
+    if len(sets) != 1 or not ups:
+        return False, "writes of the stamp: %d, schema updates: %d" % (len(sets), len(ups))
+    ok = sets[0] > max(ups) and sets[0] > max(loops)
+    return ok, "SetInt(var/last_build_time) %s the schema loop" % ("follows" if ok else "precedes")
+
+
 def coq_str(s):
     return '"' + s.replace('"', "'") + '"'
 
@@ -258,6 +275,7 @@ def generate():
         rem = {k: False for k in rem}
     resizes, zeroes, guarded = mapped_file_facts()
     mode, why = save_mode()
+    stlast, stwhy = stamp_last()
     b = lambda x: "true" if x else "false"  # noqa: E731
     lines = [
         "(* GENERATED by /verif/gen/build_order.py from %s/src/rime/{dict,config} - do not edit *)" % vlib.REPO,
@@ -276,12 +294,13 @@ def generate():
         "  bf_create_resizes_existing := %s;" % b(resizes is not False),
         "  bf_alloc_zeroes := %s;" % b(zeroes),
         "  bf_open_guarded := %s;" % b(guarded),
-        "  bf_save_mode := %s |}." % mode,
+        "  bf_save_mode := %s;" % mode,
+        "  bf_stamp_last := %s |}." % b(stlast),
     ]
     vlib.write_if_changed(os.path.join(vlib.COQ, "Gen", "BuildOrder.v"), "\n".join(lines) + "\n")
     return dict(progs={k: [e[0] + (":" + e[1] if e[1] else "") for e in v] for k, v in progs.items()},
                 call_sites={k: [list(s) for s in v] for k, v in sites.items()}, remove_before=rem,
-                create_resizes_existing=resizes, alloc_zeroes=zeroes, open_guarded=guarded, save_mode=mode, save_why=why)
+                create_resizes_existing=resizes, alloc_zeroes=zeroes, open_guarded=guarded, save_mode=mode, save_why=why, stamp_last=stlast, stamp_why=stwhy)
 
 
 if __name__ == "__main__":
